@@ -1,0 +1,16 @@
+//go:build verif
+// +build verif
+
+package consistenthash
+
+// VerifRing returns the sorted ring keys and, per key, the host that owns it (build tag verif only; read-only).
+func (c *ConsistentHash) VerifRing() ([]uint32, []string) {
+	c.RLock()
+	defer c.RUnlock()
+	keys := append([]uint32(nil), c.sortedKeys...)
+	owners := make([]string, len(keys))
+	for i, k := range keys {
+		owners[i] = c.hashRing[k].Host
+	}
+	return keys, owners
+}
